@@ -920,7 +920,11 @@ func (c *CEnv) callFn(e *Expr) cv {
 		c.fail("sum() is not supported; use explicit ghost accumulators")
 	}
 	switch name {
-	case "itpos", "itn", "itkey", "itval", "itsnap":
+	case "itkeyOf":
+		// itkeyOf(id, i): the i-th key of iterator number id
+		c.x.e.declareFun("itkey", "(Int Int) Key")
+		return cv{V: T{S: fmt.Sprintf("(itkey %s %s)", c.term(e.Args[0]).S, c.term(e.Args[1]).S), So: "Key"}}
+	case "itpos", "itn", "itkey", "itval", "itsnap", "itid":
 		iv := c.eval(e.Args[0])
 		it, ok := iv.V.(*OpaqueV)
 		if !ok || it.Tag != "iter" {
@@ -934,6 +938,8 @@ func (c *CEnv) callFn(e *Expr) cv {
 			return cv{V: it.Data["n"].(T)}
 		case "itsnap":
 			return cv{V: it.Data["snap"].(T)}
+		case "itid":
+			return cv{V: it.Data["id"].(T)}
 		case "itkey":
 			return cv{V: T{S: fmt.Sprintf("(itkey %s %s)", it.Data["id"].(T).S, c.term(e.Args[1]).S), So: "Key"}}
 		case "itval":
